@@ -55,8 +55,11 @@ class _RemoteError(Exception):
     pass
 
 
-def _worker_main(conn, initializer, initargs):
+def _worker_main(conn, initializer, initargs, rng_seed=None):
     try:
+        # randomness is a seam too: CPython re-seeds `random` from OS entropy in every forked child; here every worker
+        # gets a seed derived from the node's pool seed, so that a run replays and two nodes still differ
+        random.seed("simworker:%s" % (rng_seed,))
         if initializer is not None:
             initializer(*initargs)
         while True:
@@ -198,7 +201,7 @@ class SimPool:
                 parent.close()
                 for w in self._workers:
                     w["conn"].close()
-                _worker_main(child, initializer, initargs)
+                _worker_main(child, initializer, initargs, "%s:%d:%d" % (POOL_CONFIG["seed"], POOL_STATS["pools"], i))
             child.close()
             self._workers.append({"conn": parent, "pid": pid, "task": None, "jobs": 0})
         self._pending = []  # (tid, func, args, kwds)
